@@ -24,9 +24,9 @@ def fill_entries(shape, rng, style):
     if style == 'real':
         return rng.normal(size=shape)
     if style == 'smallint':
-        return rng.integers(-2, 3, size=shape).astype(float)
+        return rng.choice([-2.0, -1.0, 1.0, 1.0, 2.0, 3.0, 0.0], size=shape)
     if style == 'intdtype':
-        return rng.integers(-3, 4, size=shape).astype(np.int64)
+        return rng.choice(np.array([-3, -2, -1, 1, 1, 2, 3, 0], dtype=np.int64), size=shape)
     if style == 'dupcols':
         A = rng.normal(size=shape)
         n = shape[-1]
@@ -70,7 +70,7 @@ def mpo_mask(qd, ql, qr):
 @st.composite
 def qd_strategy(draw, dmin=1, dmax=4, kinds=('zero', 'small', 'small', 'small', 'pairs')):
     kind = draw(st.sampled_from(kinds))
-    d = draw(st.integers(dmin, dmax))
+    d = draw(st.sampled_from(_pref_order(dmin, dmax)))
     if kind == 'zero':
         return [0] * d
     if kind == 'small':
@@ -79,6 +79,16 @@ def qd_strategy(draw, dmin=1, dmax=4, kinds=('zero', 'small', 'small', 'small', 
     qa = draw(st.lists(st.integers(0, 2), min_size=d, max_size=d))
     qb = draw(st.lists(st.integers(-1, 1), min_size=d, max_size=d))
     return [(a << 16) + b for a, b in zip(qa, qb)]
+
+
+def _pref_order(lo, hi):
+    """
+    Values lo..hi ordered so that Hypothesis' preferred (first) choice is a small but non-degenerate
+    size (2 if available): generation over-samples the first choice and shrinking moves towards it.
+    """
+    vals = list(range(lo, hi + 1))
+    pref = [v for v in vals if v >= 2] + [v for v in vals if v < 2]
+    return pref
 
 
 def _sumsets(steps, L):
@@ -116,9 +126,9 @@ def bond_charges(draw, L, steps, q0=0, Dmax=5, junk=True, disjoint_prob=0.04):
         nextra = draw(st.integers(0, max(0, Dmax - len(cs))))
         if nextra:
             cs += draw(st.lists(st.sampled_from(valid[i]), min_size=nextra, max_size=nextra))
-        if junk and draw(st.integers(0, 9)) == 0:
+        if junk and draw(st.sampled_from(range(10))) == 7:
             cs += draw(st.lists(st.integers(-3, 3), min_size=1, max_size=2))
-        if draw(st.integers(0, 3)) == 0:
+        if draw(st.sampled_from(range(4))) == 3:
             # thin out duplicates to reach bond dimension 1..2
             cs = cs[:draw(st.integers(1, 2))]
         order = draw(st.sampled_from(_ORDERS))
@@ -130,7 +140,7 @@ def bond_charges(draw, L, steps, q0=0, Dmax=5, junk=True, disjoint_prob=0.04):
             cs = list(draw(st.permutations(cs)))
         qD.append([int(c) for c in cs])
     qD.append([int(Q)])
-    if L >= 2 and draw(st.floats(0, 1)) < disjoint_prob:
+    if L >= 2 and disjoint_prob > 0 and draw(st.sampled_from(range(max(2, int(round(1 / disjoint_prob)))))) == 1:
         # sector-disjoint layout: shift all charges of one interior bond -> zero object
         i = draw(st.integers(1, L - 1))
         qD[i] = [c + 1000 for c in qD[i]]
@@ -146,7 +156,7 @@ def mps_desc(draw, Lmin=1, Lmax=5, dmin=1, dmax=4, Dmax=5, styles=ENTRY_STYLES, 
     Lcap = Lmax
     while Lcap > Lmin and d ** Lcap > dense_cap:
         Lcap -= 1
-    L = draw(st.integers(Lmin, max(Lmin, Lcap)))
+    L = draw(st.sampled_from(_pref_order(Lmin, max(Lmin, Lcap))))
     if q0 is None:
         q0 = draw(st.sampled_from([0, 0, 0, 1, -2]))
     qD = draw(bond_charges(L, qd, q0=q0, Dmax=Dmax, junk=junk, disjoint_prob=disjoint_prob))
@@ -167,7 +177,7 @@ def mpo_desc(draw, Lmin=1, Lmax=4, dmin=1, dmax=3, Dmax=4, styles=ENTRY_STYLES, 
     Lcap = Lmax
     while Lcap > Lmin and d ** Lcap > dense_cap:
         Lcap -= 1
-    L = draw(st.integers(Lmin, max(Lmin, Lcap)))
+    L = draw(st.sampled_from(_pref_order(Lmin, max(Lmin, Lcap))))
     if q0 is None:
         q0 = 0 if zero_shift else draw(st.sampled_from([0, 0, 0, 1, -1]))
     steps = mpo_steps(qd)
